@@ -65,6 +65,10 @@ FIXED = {
     "taint_assign_rawptr": "e.t_ptr = e.r_ptr;", "vol_assign_rawptr": "e.v_ptr = e.r_ptr;", "vol_assign_rawfn": "e.v_fn = e.r_fn;",
     "vol_assign_arr_rawptr": "e.v_arrp = e.r_arrp;", "taint_assign_rawfn": "e.t_fn = e.r_fn;",
     "taint_ctor_rawcharp": "tainted<const char*, S> z(e.r_charp);", "vol_assign_rawvoidp": "*e.t_pp = (int*)e.r_voidp;",
+    # raw pointers of two and more levels, to const, to void: the entry is closed for every pointer type
+    "taint_ctor_rawpp": "tainted<int**, S> z(e.r_pp);", "taint_init_rawpp": "tainted<int**, S> z = e.r_pp;",
+    "taint_assign_rawpp": "e.t_pp = e.r_pp;", "taint_ctor_rawvpp": "tainted<void**, S> z(e.r_vpp);",
+    "taint_ctor_rawccpp": "tainted<const char* const*, S> z(e.r_ccpp);", "taint_ctor_rawvoidp": "tainted<void*, S> z(e.r_voidp);",
     "invoke_rawptr": "e.sb.invoke_sandbox_function(lib_ptr, e.r_ptr);",
     "invoke_rawfn": "e.sb.invoke_sandbox_function(lib_fn, e.r_fn);",
     "invoke_plain_struct": "e.sb.invoke_sandbox_function(lib_ps, e.r_ps);",
